@@ -562,6 +562,9 @@ func runC08(run *common.Run) {
 			c08RealBinary(run, p, filepath.Join(scratch, fmt.Sprintf("real%d", p)))
 		})
 	}
+	if run.WantSub("bigclear") && !run.TooMany() {
+		c08BigClear(run, filepath.Join(scratch, "bigclear"))
+	}
 	if run.WantSub("syskill") && !run.TooMany() {
 		c08SyscallKills(run, filepath.Join(scratch, "syskill"))
 	}
@@ -1300,6 +1303,85 @@ func c08DirectedDropStep(step int) c08Req {
 	return c08Req{}
 }
 
+// c08BigClear (part bigclear): a table of 5000 / 9000 rows (more than any batch-size constant of the storage layer) is
+// emptied by DropRowRange(delete_all_data_from_table) and the process is frozen at the instrumented points of the
+// clear - before its (last) write to the database and after it; the image must restart as the table before the request
+// or as the emptied table, never with a part of its rows.
+func c08BigClear(run *common.Run, base string) {
+	type job struct {
+		rows  int
+		point string
+	}
+	var jobs []job
+	for _, n := range []int{5000, 9000} {
+		for _, p := range []string{"rows.clear.beforeWrite", "rows.clear.afterWrite"} {
+			jobs = append(jobs, job{n, p})
+		}
+	}
+	common.Parallel(len(jobs), 4, func(i int) {
+		if !run.Want("bigclear", i) || run.TooMany() {
+			return
+		}
+		jb := jobs[i]
+		dir := filepath.Join(base, fmt.Sprintf("bc%d", i))
+		live := filepath.Join(dir, "live")
+		_ = os.MkdirAll(live, 0o777)
+		defer os.RemoveAll(dir)
+		s, msg := c08Start(fmt.Sprintf("bc%d", i), live)
+		if s == nil {
+			run.Violation("bigclear", i, "cannot start child: "+msg, nil)
+			return
+		}
+		defer func() { s.stop() }()
+		name := drive.TableName(c14Parents[0], "t")
+		drive.CreateTable(s.srv.Admin, c14Parents[0], "t", map[string]*model.GcRule{"f1": nil})
+		pre := c14Registry{name: model.NewTable("f1")}
+		for b := 0; b*2500 < jb.rows; b++ {
+			var entries []drive.Entry
+			for k := b * 2500; k < (b+1)*2500 && k < jb.rows; k++ {
+				entries = append(entries, drive.Entry{Key: fmt.Sprintf("k%05d", k), Muts: []model.Mut{{Kind: model.SetCell, Fam: "f1", Qual: "q", TS: 1000, Val: "b"}}})
+			}
+			st, per, _ := drive.MutateRows(s.srv.Data, name, entries)
+			if !st.OK() {
+				run.Inconclusive("bigclear preload failed: " + st.String())
+				return
+			}
+			for k, e := range entries {
+				if per[k].OK() {
+					_, nr := pre[name].Apply(e.Key, e.Muts, gen.BaseClock)
+					pre[name].Commit(e.Key, nr)
+				}
+			}
+		}
+		post := c14Registry{name: model.NewTable("f1")}
+		s.child.send(fmt.Sprintf("arm %s 1", jb.point))
+		s.child.readLine(30 * time.Second)
+		go func() {
+			ctx, cancel := drive.Ctx()
+			defer cancel()
+			s.srv.Admin.DropRowRange(ctx, &btapb.DropRowRangeRequest{Name: name, Target: &btapb.DropRowRangeRequest_DeleteAllDataFromTable{DeleteAllDataFromTable: true}})
+		}()
+		if l, _ := s.child.readLine(60 * time.Second); !strings.HasPrefix(l, "STOPPED") {
+			run.Count("bigclear_point_not_reached", 1)
+			return
+		}
+		if !waitStopped(s.child.cmd.Process.Pid, 30*time.Second) {
+			run.Inconclusive("child did not stop")
+			return
+		}
+		img := filepath.Join(dir, "img")
+		if err := copyDir(live, img); err != nil {
+			run.Inconclusive("copy failed: " + err.Error())
+			return
+		}
+		run.Count("bigclear_images", 1)
+		run.Case(common.Hash64("bigclear", fmt.Sprint(i)), true)
+		if m := c08VerifyImage(fmt.Sprintf("bcv%d", i), img, []c14Registry{pre, post}); m != "" {
+			run.Violation("bigclear", i, fmt.Sprintf("table of %d rows; DropRowRange(delete all) killed at %s: %s", jb.rows, jb.point, trunc(m, 1500)), nil)
+		}
+	})
+}
+
 func c08SyscallKills(run *common.Run, base string) {
 	if _, err := exec.LookPath("strace"); err != nil {
 		run.Inconclusive("strace not available")
@@ -1320,7 +1402,14 @@ func c08SyscallKills(run *common.Run, base string) {
 	var jobs []job
 	for p := 0; p < nprog; p++ {
 		for sc := range syscalls {
-			for n := 1; n <= maxN; n++ {
+			top := maxN
+			if sc >= 4 {
+				top = run.N(40, 120) // the directed programs are the same for every program index
+				if p > 0 {
+					continue
+				}
+			}
+			for n := 1; n <= top; n++ {
 				jobs = append(jobs, job{p, sc, n})
 			}
 		}
@@ -1345,6 +1434,7 @@ func c08SyscallKills(run *common.Run, base string) {
 		defer os.RemoveAll(dir)
 		live := filepath.Join(dir, "live")
 		_ = os.MkdirAll(live, 0o777)
+		reg := c14Registry{}
 		// child under strace
 		errPath := filepath.Join(dir, "child.err")
 		ef, _ := os.Create(errPath)
@@ -1374,7 +1464,6 @@ func c08SyscallKills(run *common.Run, base string) {
 			l, _ := bufio.NewReader(outR).ReadString('\n')
 			lineCh <- strings.TrimSpace(l)
 		}()
-		reg := c14Registry{}
 		firstDef := map[string]map[string]*model.GcRule{}
 		var steps []string
 		var srv *drive.Srv
@@ -1383,8 +1472,8 @@ func c08SyscallKills(run *common.Run, base string) {
 		select {
 		case l := <-lineCh:
 			if !strings.HasPrefix(l, "ADDR ") {
-				died = true // killed during start-up (first start on an empty directory): nothing acknowledged yet
-				pre, post = c14Registry{}, c14Registry{}
+				died = true // killed during start-up: nothing beyond the preloaded state (empty but for the sixth group) is acknowledged
+				pre, post = c08CloneReg(reg), c08CloneReg(reg)
 			} else {
 				var err error
 				srv, err = drive.Connect(strings.TrimPrefix(l, "ADDR "))
@@ -1419,9 +1508,9 @@ func c08SyscallKills(run *common.Run, base string) {
 			}
 			if jb.sc == 4 {
 				req = c08DirectedDropStep(step)
-				if req.send == nil {
-					break
-				}
+			}
+			if req.send == nil {
+				break
 			}
 			st := req.send(srv)
 			steps = append(steps, req.desc+" -> "+st.String())
